@@ -534,6 +534,40 @@ def check_prefilter(ctx, fxa, fxr):
         return X.show(X.strip(a)).strip("()") == "live"
     okm = all("maskz" in (n.get("name") or "") and masked(n) for n in loads) and \
         all("mask" in (n.get("name") or "") and masked(n) for n in cmps)
+    # the prefilter may reject only what the grammar of IPv6 literals rules out: fewer than 2 or more than 45 bytes, more than
+    # 8 colons ("1:2:3:4:5:6:7::" has 8), and — without "::" and without an IPv4 tail — any colon count other than 7
+    from lib.norm import cmp_norm
+    SPEC = {("-len",): ("lt", 45), ("+len",): ("lt", -2), ("-colons",): ("lt", 8), ("+colons",): ("ne", -7)}
+    blkf = {b["id"]: b for b in f["blocks"]}
+    nthr = 0
+    for b in f["blocks"]:
+        t = b["term"]
+        c = t.get("econd") if t.get("econd") is not None else t.get("cond")
+        if c is None:
+            continue
+        for e in b["succ"]:
+            if e.get("when") not in ("true", "false"):
+                continue
+            # an edge that leads (possibly through the rest of an && / || chain) straight to `return false`
+            tgt = blkf[e["to"]]
+            if not any(st["k"] == "return" and X.const_val(st.get("e")) == 0 for st in tgt["stmts"]):
+                continue
+            nf = cmp_norm(c, e["when"] == "true")
+            if nf is None or nf[1] not in SPEC:
+                continue
+            op, ts, cc = nf
+            if op == "le":
+                op, cc = "lt", cc - 1
+            sop, sc = SPEC[ts]
+            nthr += 1
+            ok = (op == sop == "lt" and cc >= sc) or (op == sop == "ne" and cc == sc)
+            ctx.check("K6", "ipv6_structure_plausible rejects on `%s` no more than the grammar does" % (t.get("econd_text") or t.get("cond_text")),
+                      ok, "within the grammar's bound",
+                      "the prefilter rejects when `%s` (%s): valid IPv6 literals satisfy that (the bound allowed by the grammar is %s %s), "
+                      "so the AVX-512 build rejects hosts every other build accepts"
+                      % ((t.get("econd_text") or t.get("cond_text")), "true" if e["when"] == "true" else "false", ts[0], sc),
+                      where=(t.get("loc") or "").replace("/repo/", ""))
+    ctx.floor("K6", nthr, 4, "threshold comparisons of the IPv6 prefilter")
     ctx.check("K6", "ipv6_structure_plausible looks only at the live bytes", okm and len(loads) == 1 and len(cmps) >= 2,
               "%d masked load, %d masked compares" % (len(loads), len(cmps)),
               "a load or compare of the prefilter is not masked by `live`: bytes after the host would influence the verdict",
